@@ -88,11 +88,16 @@ inductive Event where
   | publish (n : Nat)
   /-- `replaceRoot(nil)` (end of `Writer.close`) -/
   | unroot
-  /-- `Writer.Reader()` = `currentSnapshot()` -/
+  /-- `Writer.Reader()` = `currentSnapshot()`: read `s.root` and `addRef` it, both under `rootLock.RLock()`.
+      ONE event because of that lock region (Gen obligation
+      `refs_taken_under_the_lock_that_guards_the_pointer`): the swap in `replaceRoot` needs the write lock
+      and `rootPrev.Close()` comes after it, so the root read here still carries the root's own reference. -/
   | readerOpen
   /-- `Reader.Close()` = `Snapshot.decRef` -/
   | readerClose (i : Nat)
-  /-- `currentSnapshot()` by the introducer / persister (grab) / merger / `prepareSegment` / `currentEpoch` -/
+  /-- `currentSnapshot()` by the introducer / merger / `prepareSegment` / `currentEpoch`, and the persister's
+      inlined grab (`ourSnapshot = s.root; ourSnapshot.addRef()` under `rootLock.Lock()`): atomic for the same
+      reason as `readerOpen` -/
   | grab
   /-- `Close()` of a snapshot held by a local variable -/
   | release (i : Nat)
